@@ -1,0 +1,88 @@
+//go:build verif
+
+// Contracts for the deductive verifier in /verif (gvc). Comment-only: compiled only under the build
+// tag `verif`, contains no code.
+package util
+
+// ---- C16: the suppression set ------------------------------------------------------------------
+//
+// Documented hierarchy (book/src/03_codes.md): ALL > category > code.
+//@ pure func catOf(c string) string = (c == "IMM01" || c == "IMM02" || c == "IMM03" || c == "IMM04") ? "IMM" : ((c == "CTOR01" || c == "CTOR02" || c == "CTOR03") ? "CTOR" : ((c == "TONL01" || c == "TONL02" || c == "TONL03") ? "TONL" : ((c == "PKGO01" || c == "PKGO02" || c == "PKGO03") ? "PKGO" : ((c == "IMPL01" || c == "IMPL02" || c == "IMPL03") ? "IMPL" : ""))))
+//@ pure func inHier(t string, c string) bool = t == "ALL" || t == c || (catOf(c) != "" && t == catOf(c))
+
+// marker i of s covers position p with token t
+//@ macro func covers(s *IgnoreSet, i int, t string, p token.Pos) bool = 0 <= i && i < len(s.Markers) && contains(s.Markers[i].Codes, t) && s.Markers[i].StartPos <= p && p <= s.Markers[i].EndPos
+
+// the decision of the property statement: some token of the hierarchy of c is global or scoped over p
+//@ pure func suppressed(s *IgnoreSet, c string, p token.Pos) bool = exists t string :: inHier(t, c) && (contains(s.moduleIgnores, t) || (exists i int :: covers(s, i, t, p)))
+
+// representation invariant, in three parts:
+// every index entry points to a marker that carries the key
+//@ pure func idxValid(s *IgnoreSet) bool = forall c string, k int :: indom(s.CodeIndex, c) && 0 <= k && k < len(s.CodeIndex[c]) ==> 0 <= s.CodeIndex[c][k] && s.CodeIndex[c][k] < len(s.Markers) && contains(s.Markers[s.CodeIndex[c][k]].Codes, c)
+// every code of every marker below n is indexed under that code
+//@ pure func idxComplete(s *IgnoreSet, n int) bool = forall i int, j int :: 0 <= i && i < n && i < len(s.Markers) && 0 <= j && j < len(s.Markers[i].Codes) ==> indom(s.CodeIndex, s.Markers[i].Codes[j]) && contains(s.CodeIndex[s.Markers[i].Codes[j]], i)
+// MinPos/MaxPos bound all markers; NoPos (0) means "no marker yet"; stored ranges start at a valid position
+//@ pure func posBounds(s *IgnoreSet) bool = (len(s.Markers) == 0 ==> s.MinPos == 0 && s.MaxPos == 0) && (len(s.Markers) > 0 ==> s.MinPos >= 1) && (forall i int :: 0 <= i && i < len(s.Markers) ==> s.Markers[i].StartPos >= 1 && (s.Markers[i].StartPos <= s.Markers[i].EndPos ==> s.MinPos <= s.Markers[i].StartPos && s.Markers[i].EndPos <= s.MaxPos))
+//@ pure func isetInv(s *IgnoreSet) bool = (s.Initialized ==> (s.CodeIndex != nil && idxValid(s) && idxComplete(s, len(s.Markers)) && posBounds(s))) && (!s.Initialized ==> len(s.moduleIgnores) == 0)
+
+// the decision as a function of the abstract collection: what Contains answers
+//@ pure func eff(s *IgnoreSet, c string, p token.Pos) bool = s.Initialized && suppressed(s, c, p)
+
+//@ func IgnoreSet.ensureInitialized
+//@   props C16 C10
+//@   requires isetInv(s)
+//@   assigns s.Markers, s.CodeIndex, s.MinPos, s.MaxPos, s.Initialized
+//@   ensures s.Initialized && isetInv(s)
+//@   ensures old(s.Initialized) ==> s.Markers == old(s.Markers) && s.CodeIndex == old(s.CodeIndex) && s.MinPos == old(s.MinPos) && s.MaxPos == old(s.MaxPos)
+//@   ensures !old(s.Initialized) ==> len(s.Markers) == 0 && fresh(s.CodeIndex)
+//@   ensures s.moduleIgnores == old(s.moduleIgnores)
+
+//@ func IgnoreSet.Contains
+//@   props C16 C10 C08 C07
+//@   nilrecv
+//@   requires s != nil ==> isetInv(s)
+//@   ensures result == (s != nil && s.Initialized && suppressed(s, code, pos))
+//@   assigns nothing
+//@   loop 1 invariant forall k int :: 0 <= k && k < $i ==> !contains(s.moduleIgnores, $seq[k])
+//@   loop 1 invariant forall k int :: 0 <= k && k < len($seq) ==> inHier($seq[k], code)
+//@   loop 2 invariant forall k int :: 0 <= k && k < len($seq) ==> inHier($seq[k], code)
+//@   loop 2 invariant forall k int, m int :: 0 <= k && k < $i ==> !covers(s, m, $seq[k], pos)
+//@   loop 3 invariant forall k int :: 0 <= k && k < $i ==> !(s.Markers[indices[k]].StartPos <= pos && pos <= s.Markers[indices[k]].EndPos)
+
+//@ func IgnoreSet.AddModuleIgnore
+//@   props C16 C10 C08
+//@   requires isetInv(s)
+//@   assigns s.Markers, s.CodeIndex, s.MinPos, s.MaxPos, s.Initialized, s.moduleIgnores
+//@   ensures s.Initialized && isetInv(s)
+//@   ensures forall t string :: contains(s.moduleIgnores, t) <==> (contains(old(s.moduleIgnores), t) || contains(codes, t))
+//@   ensures old(s.Initialized) ==> s.Markers == old(s.Markers)
+//@   ensures !old(s.Initialized) ==> len(s.Markers) == 0
+//@   ensures forall c string, p token.Pos :: eff(s, c, p) <==> (old(eff(s, c, p)) || (exists t string :: inHier(t, c) && contains(codes, t)))
+
+//@ func IgnoreSet.Len
+//@   props C16 C10
+//@   nilrecv
+//@   ensures result == (s == nil ? 0 : len(s.Markers))
+//@   assigns nothing
+
+//@ func IgnoreSet.Empty
+//@   props C16 C10
+//@   nilrecv
+//@   ensures result == (s == nil || len(s.Markers) == 0)
+//@   assigns nothing
+
+// Add appends one scoped suppression (codes, start, end). The start must be a valid position (>= 1): NoPos is
+// the structure's own "no marker yet" sentinel for MinPos.
+//@ func IgnoreSet.Add
+//@   props C16 C10 C07
+//@   requires isetInv(s) && annotation != nil && annotation.GetStartPos() >= 1
+//@   assigns s.Markers, s.CodeIndex, s.MinPos, s.MaxPos, s.Initialized, s.CodeIndex[all]
+//@   let n0 = old(s.Initialized) ? old(len(s.Markers)) : 0
+//@   ensures s.Initialized && isetInv(s)
+//@   ensures len(s.Markers) == n0 + 1
+//@   ensures forall i int :: 0 <= i && i < n0 ==> s.Markers[i] == old(s.Markers)[i]
+//@   ensures s.Markers[n0].Codes == annotation.GetCodes() && s.Markers[n0].StartPos == annotation.GetStartPos() && s.Markers[n0].EndPos == annotation.GetEndPos()
+//@   ensures s.moduleIgnores == old(s.moduleIgnores)
+//@   ensures forall c string, p token.Pos :: eff(s, c, p) <==> (old(eff(s, c, p)) || (exists t string :: inHier(t, c) && contains(annotation.GetCodes(), t) && annotation.GetStartPos() <= p && p <= annotation.GetEndPos()))
+//@   loop 1 invariant s.Initialized && s.CodeIndex != nil && idxValid(s) && idxComplete(s, index)
+//@   loop 1 invariant forall j int :: 0 <= j && j < $i ==> indom(s.CodeIndex, marker.Codes[j]) && contains(s.CodeIndex[marker.Codes[j]], index)
